@@ -489,12 +489,17 @@ var (
 	reNoInit          = regexp.MustCompile(`\b(let|var)\s*[\[{]`)
 	reBadTarget       = regexp.MustCompile(`(\+\+|--)\s*\(*[\[{]|[\]}]\)*\s*(\+\+|--|(\*\*|<<|>>>?|&&|\|\||\?\?|[-+*/%&|^])=)`)
 	reLetLet          = regexp.MustCompile(`\b(let|const)\b[^;]*\blet\b`)
-	reLetArrowStmt    = regexp.MustCompile(`(^|[;{}\n)])\s*let\s*=>`)
+	reLetArrowStmt    = regexp.MustCompile(`(^|[;{}\n):])\s*let\s*=>`)
 	reStaticBlock     = regexp.MustCompile(`\bstatic\s*\{`)
 	reOctalish        = regexp.MustCompile(`\\[0-9]|(^|[^\w.$\\])0[0-9]`)
 	reAsyncArrowAwait = regexp.MustCompile(`async\s*\(?[^)=]*\bawait\b[^)=]*\)?\s*=>`)
 	reWithIfFn        = regexp.MustCompile(`\bwith\b[\s\S]*\bfunction\b`)
 	reExportStarEval  = regexp.MustCompile(`export\s*\*\s*as\s*(eval|arguments)\b`)
+	reLetBracket      = regexp.MustCompile(`(^|[;{}\n])\s*let\[`)
+	reClassCode       = regexp.MustCompile(`\bclass\b`)
+	reCatchPattern    = regexp.MustCompile(`catch\s*\(\s*[\[{]`)
+	rePostfixNewline  = regexp.MustCompile("(\\+\\+|--)[ \t]*\n\\s*[\\[(`]")
+	reReexportBinding = regexp.MustCompile(`export\s*\{[^}]*\}\s*from|export\s*\*\s*as|import\s*\*\s*as\s*(eval|arguments)\b|import\s*\{[^}]*\b(eval|arguments)\b`)
 	reInfStmt         = regexp.MustCompile(`(Infinity|NaN)\s*(;|\}|$)`)
 )
 
@@ -503,7 +508,7 @@ func knownRejection(c *glueCase, goal string) string {
 	e := c.err1
 	switch {
 	case (strings.HasPrefix(e, "Legacy octal literals cannot be used in strict mode") || strings.HasPrefix(e, "Legacy octal escape sequences cannot be used in strict mode")) &&
-		reStaticBlock.MatchString(c.src) && reOctalish.MatchString(c.src):
+		reClassCode.MatchString(c.src) && reOctalish.MatchString(c.src):
 		// ECMA-262 11.2.2: all parts of a ClassDeclaration or ClassExpression are strict mode code
 		// (this includes ClassStaticBlock bodies).  12.9.3.1 (Numeric Literals, Early Errors):
 		// LegacyOctalIntegerLiteral and NonOctalDecimalIntegerLiteral (010, 08, 09.5, 00) are
@@ -513,8 +518,20 @@ func knownRejection(c *glueCase, goal string) string {
 		// esbuild reports them; V8 (node 20) forgets these two checks for code placed DIRECTLY
 		// in a class static block (probed: it does report them in methods, field initialisers,
 		// functions nested in the block, "use strict" code, and it reports every other
-		// strict-mode restriction inside static blocks).  Node is wrong here, not esbuild.
-		return "legacy octal literal/escape directly inside a class static block: Syntax Error per ECMA-262 (strict mode code), accepted by V8 only"
+		// strict-mode restriction inside static blocks).  The same leniency exists for code placed
+		// directly in a class heritage (`class y extends 010 {}`) and in a field initialiser
+		// (`class { f = 00 }`).  Node is wrong here, not esbuild.
+		return "legacy octal literal/escape directly inside class code (static block, heritage, field initialiser): Syntax Error per ECMA-262 (strict mode code), accepted by V8 only"
+	case strings.Contains(e, "has already been declared") && reStaticBlock.MatchString(c.src) && reCatchPattern.MatchString(c.src):
+		// B.3.4 allows "var e" to redeclare only a simple catch parameter; for a pattern it is an
+		// early error, which V8 forgets inside class static blocks (it reports it everywhere else)
+		return "var redeclaring a destructured catch parameter inside a class static block: early error per ECMA-262, accepted by V8 only"
+	case strings.Contains(e, "Cannot use \"yield\" outside a generator function"):
+		return "recurrence of known finding C13-D2e: `yield` as an identifier (sloppy, non-generator) rejected in some positions, e.g. `for (yield of x);`"
+	case regexp.MustCompile(`(^|[;{}\n):])\s*\(?using\)?\s*=>`).MatchString(c.src) && strings.Contains(e, "\"=>\""):
+		return "recurrence of known finding C13-D2f: statement `using => 1` rejected"
+	case rePostfixNewline.MatchString(c.src):
+		return "recurrence of known finding C13-D9: postfix ++/-- followed by a line break and [ ( or a template is continued as a member/call expression instead of ending the statement (ASI)"
 	case strings.Contains(e, "Top-level await is currently not supported"):
 		return "top-level await with cjs/iife output (documented esbuild restriction)"
 	case e == "Invalid assignment target" && (strings.HasSuffix(stripComments(c.mark1), ")") || strings.HasSuffix(stripComments(c.mark1), "`")):
@@ -542,6 +559,24 @@ func knownNotFixed(c *glueCase) string {
 	if strings.Contains(c.err2, "Cannot use \"let\" as an identifier here") && reLetLet.MatchString(c.out1) {
 		return "recurrence of known finding C13-D3c: `let` as a lexically bound name accepted"
 	}
+	if reLetBracket.MatchString(c.out1) {
+		return "recurrence of known finding C13-D7: expression statement starting with the identifier let followed by [ printed without parentheses"
+	}
+	if strings.Contains(c.err2, "\"=>\"") && regexp.MustCompile(`(^|[;{}\n):])\s*using\s*=>`).MatchString(c.out1) {
+		return "recurrence of known finding C13-D2f: statement `using => 1` rejected"
+	}
+	if c.err2 == "" && strings.Contains(c.out1, "\\u{") && strings.Contains(c.out2, "\\uD") {
+		return "recurrence of known finding C13-D4d: a string statement that becomes a directive keeps its \\u{...} escape on the first pass and is re-escaped as a surrogate pair on the second"
+	}
+	if strings.Contains(c.err2, "Invalid assignment target") && reBadTarget.MatchString(c.out1) {
+		return "recurrence of known finding C13-D3b: array/object literal as target of update or compound assignment accepted"
+	}
+	if strings.Contains(c.out1, "__commonJS") && strings.Contains(c.err2, "cannot be used in an ECMAScript module") {
+		return "recurrence of known finding C13-D8: a script with a top-level return is wrapped as CommonJS inside ESM output with its sloppy-only identifiers unchanged"
+	}
+	if c.err2 != "" && reAsyncArrowAwait.MatchString(c.out1) {
+		return "recurrence of known finding C13-D3e: `await` as parameter of an async arrow function accepted"
+	}
 	if reExportStarEval.MatchString(c.src) {
 		return "recurrence of known finding C13-D6: `export * as eval/arguments` becomes a binding named eval/arguments in strict code"
 	}
@@ -561,6 +596,12 @@ func knownNotFixed(c *glueCase) string {
 func knownInvalidOutput(c *glueCase, goal, nodeErr string) string {
 	if strings.Contains(nodeErr, "has already been declared") && reWithIfFn.MatchString(c.src) {
 		return "recurrence of known finding C13-D5: function declaration in an if/label body inside `with` is lowered to `let g` + `var g` in one block"
+	}
+	if reLetBracket.MatchString(c.out1) {
+		return "recurrence of known finding C13-D7: expression statement starting with the identifier let followed by [ printed without parentheses"
+	}
+	if reReexportBinding.MatchString(c.src) && (strings.Contains(nodeErr, "eval or arguments") || strings.Contains(nodeErr, "reserved word")) {
+		return "recurrence of known finding C13-D6: `export * as eval/arguments` becomes a binding named eval/arguments in strict code"
 	}
 	if reExportStarEval.MatchString(c.src) && strings.Contains(nodeErr, "eval or arguments") {
 		return "recurrence of known finding C13-D6: `export * as eval/arguments` becomes a binding named eval/arguments in strict code"
@@ -583,11 +624,15 @@ func knownLenient(c *glueCase, nodeErrScript, nodeErrModule, nodeErrOut string) 
 		return "regular expression bodies are not validated by esbuild (documented)"
 	case strings.Contains(nodeErrOut, "Missing initializer in destructuring declaration") && reNoInit.MatchString(c.out1):
 		return "recurrence of known finding C13-D3a: destructuring declaration without initializer accepted"
-	case strings.Contains(nodeErrOut, "Invalid left-hand side") && reBadTarget.MatchString(c.out1):
+	case regexp.MustCompile(`\{[^{}]*\b(import|if|in|new|do|for|var|case|else|this|null|true|void|with|enum|break|catch|class|const|false|super|throw|while|delete|export|return|switch|typeof|default|extends|finally|continue|debugger|function|instanceof)\s*[,}]`).MatchString(c.out1) && (strings.Contains(nodeErrOut, "Unexpected token") || strings.Contains(nodeErrOut, "reserved word") || strings.Contains(nodeErrOut, "Unexpected strict")):
+		return "recurrence of known finding C13-D3g: reserved word as shorthand property in a binding pattern or object literal accepted"
+	case reReexportBinding.MatchString(c.src):
+		return "recurrence of known finding C13-D6: `export * as eval/arguments` becomes a binding named eval/arguments in strict code"
+	case reBadTarget.MatchString(c.out1):
 		return "recurrence of known finding C13-D3b: array/object literal as target of update or compound assignment accepted"
-	case (awaitish.MatchString(c.src) || strings.Contains(c.out1, "await")) && (strings.Contains(c.src, "import") || strings.Contains(c.src, "export")):
+	case (awaitish.MatchString(c.src) || strings.Contains(c.out1, "await")) && (strings.Contains(c.src, "import") || strings.Contains(c.src, "export") || c.v.format == api.FormatESModule):
 		return "recurrence of known finding C13-D3d: `await` used as an identifier together with ES module syntax accepted"
-	case strings.Contains(nodeErrOut, "not a valid identifier name in an async function") && reAsyncArrowAwait.MatchString(c.out1):
+	case reAsyncArrowAwait.MatchString(c.out1):
 		return "recurrence of known finding C13-D3e: `await` as parameter of an async arrow function accepted"
 	case strings.Contains(nodeErrOut, "let is disallowed as a lexically bound name") && reLetLet.MatchString(c.out1):
 		return "recurrence of known finding C13-D3c: `let` as a lexically bound name accepted"
@@ -622,6 +667,13 @@ var knownReplays = []knownReplay{
 	{"known-D5", "known-D5-function-in-if-inside-with-duplicate-declaration", "function f(){ with (x) if (a) function g(){} }", variant{}, "unreparsable", "output that esbuild and node can read back (the input is a valid sloppy-mode script)"},
 	{"known-D6", "known-D6-export-star-as-eval-creates-strict-binding", "export * as eval from 'm'", variant{format: api.FormatESModule}, "invalidout", "valid module output (the input is a valid module)"},
 	{"known-D4c", "known-D4c-parentheses-added-behind-preserved-comment", "class Foo { foo =/**/() => super.x }", variant{}, "notfixed", "second Transform reproduces the first output"},
+	{"known-D7", "known-D7-let-bracket-statement-start-not-parenthesised", "(let)[x]", variant{}, "invalidout", "`(let)[x];` (an expression statement may not start with `let [`)"},
+	{"known-D8", "known-D8-commonjs-wrapper-in-esm-keeps-sloppy-identifiers", "return\nlet", variant{format: api.FormatESModule}, "unreparsable", "an error, or ESM output that is valid strict code"},
+	{"known-D9", "known-D9-postfix-newline-bracket-not-asi", "a++\n[]", variant{}, "rejected", "accepted: `a++` and `[]` are two statements (ASI: `a++[` is not derivable)"},
+	{"known-D2e", "known-D2e-yield-identifier-in-for-of-rejected", "function f(){ for (yield of x); }", variant{}, "rejected", "accepted (yield is an identifier in a sloppy non-generator function)"},
+	{"known-D2f", "known-D2f-using-arrow-statement-rejected", "using => 1", variant{}, "rejected", "accepted (arrow function with parameter using)"},
+	{"known-D3g", "known-D3g-reserved-word-shorthand-accepted", "var {import} = x", variant{}, "passthrough", "an error"},
+	{"known-D4d", "known-D4d-directive-string-escape-not-stable", "-0;\n'\\u{1F600}';\n", variant{}, "notfixed", "second Transform reproduces the first output"},
 	{"known-D4a", "known-D4a-infinity-statement-dropped-by-second-pass", "if (x) 1e400; else y", variant{}, "notfixed", "second Transform reproduces the first output"},
 	{"known-D4b", "known-D4b-semicolon-after-stripped-legal-comment", "if (1) {foo() //! test\n}", variant{mw: true}, "notfixed", "second Transform reproduces the first output"},
 }
@@ -670,7 +722,7 @@ func replayKnown(st *Stats) {
 		}
 		st.Note("known-finding-replay", k.scenario, true)
 		if fails {
-			st.Fail(k.kind, input, got, k.expect)
+			recordFail(st, k.kind, input, got, k.expect)
 		} else {
 			st.Histogram["known finding no longer reproduces: "+k.scenario]++
 		}
